@@ -401,6 +401,9 @@ ocp.set_der(v, a)
         assert "integrator" not in stage._constraints
 
         self.opti_advanced = self.opti.advanced
+        # min/max bounds of the time grid
+        for k in range(self.N):
+            self.add_coupling_constraints(stage, opti, k)
         self.add_constraints_inf(stage, opti)
         self.add_constraints_noninf(stage, opti)
     
